@@ -174,7 +174,7 @@ VNode gen_root(Entropy &e) {
                 g.u = e.below(3);
             } else {
                 g.k = VK::Str;
-                g.s = (const char *[]){"x", "y", "z"}[e.below(3)];
+                g.s = (g_alias ? (const char *[]){"x&y", "<z>", "it's \"q\""} : (const char *[]){"x", "y", "z"})[e.below(3)]; // group titles are printed through {var:}
             }
             VNode t;
             t.k = VK::Str;
@@ -480,10 +480,21 @@ const VNode *step_into(const VNode *n, const std::string &s) {
     }
     return nullptr;
 }
+// A loop variable is found by its name, innermost loop first: an inner loop may reuse the name of an outer one (shadowing).
+// With unique names this is the frame the generator's scope index points at.
+const Frame &frame_of(const Path &p, const Env &env) {
+    const std::string &name = env.frames[size_t(p.loop)].var;
+    for (size_t i = env.frames.size(); i-- > 0;) {
+        if (env.frames[i].var == name) {
+            return env.frames[i];
+        }
+    }
+    return env.frames[size_t(p.loop)];
+}
 const VNode *resolve(const Path &p, const Env &env) {
     const VNode *n;
     if (p.loop >= 0) {
-        n = env.frames[size_t(p.loop)].value;
+        n = frame_of(p, env).value;
     } else {
         n = step_into(env.root, p.head);
     }
@@ -606,7 +617,7 @@ struct Ref {
         }
         // not printable: inside an object loop the loop variable itself prints the member's key ({var:} only)
         if (!raw && t.path.loop >= 0 && t.path.steps.empty()) {
-            const Frame &f = env.frames[size_t(t.path.loop)];
+            const Frame &f = frame_of(t.path, env);
             if (f.from_object && !f.key.empty()) {
                 out += escape_html(f.key);
                 return;
@@ -649,6 +660,11 @@ std::string spell_expr(const Expr &x, bool top = true) {
                 return (tighter || chain) ? t.substr(1, t.size() - 2) : t; // strip the parentheses spell_expr(false) added
             };
             std::string s = child(*x.l, false) + " " + x.op + " " + child(*x.r, true);
+            if (top && g_alias) {
+                // look-alike mode: the whole expression may stand in one or two pairs of parentheses ((E) means E)
+                const size_t w = (s.size() * 7 + size_t(x.op[0])) % 5;
+                return w == 1 ? "(" + s + ")" : w == 2 ? "((" + s + "))" : w == 3 ? "( " + s + " )" : s;
+            }
             return top ? s : "(" + s + ")";
         }
     }
@@ -671,6 +687,9 @@ std::string spell(const TNode &t) {
             std::string s = "{svar:" + t.path.text();
             for (auto &sub : t.subs) {
                 s += ", " + spell(*sub);
+            }
+            if (t.subs.empty()) {
+                s += (t.path.head.size() % 2) ? "," : ", ";
             }
             return s + "}";
         }
@@ -706,17 +725,24 @@ std::string spell(const TNode &t) {
         default: { // loop
             std::string q(1, t.quote);
             std::string s = "<loop";
+            std::string a[4];
             if (t.has_set) {
-                s += " set=" + q + t.path.text() + q;
+                a[0] = " set=" + q + t.path.text() + q;
             }
             if (t.has_value) {
-                s += " value=" + q + t.var + q;
+                a[1] = " value=" + q + t.var + q;
             }
             if (t.group) {
-                s += " group=" + q + "g" + q;
+                a[2] = " group=" + q + "g" + q;
             }
             if (t.sort != 0) {
-                s += " sort=" + q + (t.sort == 1 ? "ascend" : "descend") + q;
+                a[3] = " sort=" + q + (t.sort == 1 ? "ascend" : "descend") + q;
+            }
+            // the attributes may come in any order (look-alike mode varies it; otherwise set, value, group, sort)
+            static const int orders[6][4] = {{0, 1, 2, 3}, {1, 0, 2, 3}, {3, 2, 1, 0}, {2, 0, 3, 1}, {1, 3, 0, 2}, {0, 3, 2, 1}};
+            const int       *ord          = orders[g_alias ? (t.var.size() * 3 + t.path.text().size() + size_t(t.sort)) % 6 : 0];
+            for (int k = 0; k < 4; ++k) {
+                s += a[ord[k]];
             }
             return s + ">" + spell_list(t.body) + "</loop>";
         }
@@ -952,6 +978,12 @@ struct Gen {
         const VNode *n = nullptr;
         if (!sc.loops.empty() && e.chance(65)) {
             p.loop        = int(e.below(uint32_t(sc.loops.size())));
+            for (size_t j = sc.loops.size(); j-- > size_t(p.loop) + 1;) { // the name may be reused further in: that loop is the one it names
+                if (sc.loops[j].name == sc.loops[size_t(p.loop)].name) {
+                    p.loop = int(j);
+                    break;
+                }
+            }
             const auto &lv = sc.loops[size_t(p.loop)];
             p.head         = lv.name;
             n              = lv.sample;
@@ -1258,6 +1290,9 @@ struct Gen {
             for (unsigned i = 0; i < c; ++i) {
                 n->subs.push_back(gen_simple(sc));
             }
+            if (g_alias && (size_t(tags) + n->path.head.size()) % 4 == 0) {
+                n->subs.clear(); // look-alike mode: a comma and no sub tag at all ({svar:phrase, }): the phrase is printed as it is
+            }
             return n;
         }
         if (pick == 5) { // inline if
@@ -1326,6 +1361,11 @@ struct Gen {
         }
         n->has_value = e.chance(90);
         n->var       = "it" + std::to_string(++sc.counter);
+        if (g_alias && n->has_set && n->has_value && n->path.loop >= 0 && (sc.counter % 2) == 0) {
+            // look-alike mode: an inner loop over a member of an outer loop's item reuses the outer loop's name
+            // (<loop value="it1" set="it1[kids]">): its set still means the outer item, its body the inner one
+            n->var = sc.loops[size_t(n->path.loop)].name;
+        }
         const bool static_set = (!n->has_set || n->path.loop < 0); // sort / group only where the set is known: named from the root
         if (static_set && set != nullptr && set->k == VK::Arr && groupable(*set) && e.chance(50)) {
             n->group = true;
